@@ -84,6 +84,7 @@ func applyToModel(m *model, o op) {
 		t := m.nodes[o.Node].term
 		m.nodes[o.Node] = newNodeModel()
 		m.nodes[o.Node].term = t
+		m.nodes[o.Node].purged = true
 	case "bootstrap":
 		b := o.Boot
 		m.nodes[o.Node].boot = &b
